@@ -6,11 +6,29 @@ package simio
 import (
 	"errors"
 	"io"
+	"math/rand/v2"
 )
 
 // Chooser is the part of the simulator the simulated streams need.
 type Chooser interface {
 	Choose(n int, kind string) int
+}
+
+// Sub is a private decision stream for one simulated reader or writer. Harnesses whose code
+// under test runs goroutines outside the scheduler's control (unwoven dataflow pipelines) give
+// each stream its own Sub, seeded by one draw from the tape, so that concurrent streams never
+// compete for the tape and one seed still decides every read size.
+type Sub struct{ r *rand.Rand }
+
+// NewSub returns a private stream for seed.
+func NewSub(seed uint64) *Sub { return &Sub{rand.New(rand.NewPCG(seed, 0x5deece66d))} }
+
+// Choose implements Chooser.
+func (s *Sub) Choose(n int, kind string) int {
+	if n <= 1 {
+		return 0
+	}
+	return s.r.IntN(n)
 }
 
 // ErrInjected is the sticky error a simulated reader or writer fails with.
